@@ -161,6 +161,14 @@ type Plugin struct {
 	VetoText string
 }
 
+// UpdateContainers issues an unsolicited update through the plugin's stub (nothing for a raw plugin).
+func (p *Plugin) UpdateContainers(u []*api.ContainerUpdate) ([]*api.ContainerUpdate, error) {
+	if p.st == nil {
+		return nil, nil
+	}
+	return p.st.UpdateContainers(u)
+}
+
 // Closed reports whether the plugin side noticed the loss of its connection.
 func (p *Plugin) Closed() bool {
 	select {
